@@ -222,33 +222,66 @@ def r3_3(ctx, R, inc, dec):
             o = ordering_of(fl.operand_expr(t["args"][2]))
             ctx.ob("R3.3", b, "dec-ordering>=Release", o in ("Release", "AcqRel", "SeqCst"), b.loc(bb), "ordering %s" % o)
             strong = o in ("AcqRel", "SeqCst")
-            fences = []
+            from lib_flow import sensitive_paths, PathEval, path_bool_labels
+            fence_blocks = []
             for fb, ft, ffn in direct_sites(b, r"core::sync::atomic::fence$"):
                 fo = ordering_of(fl.operand_expr(ft["args"][0]))
-                if fo in ("Acquire", "AcqRel", "SeqCst") and b.dominates(bb, fb):
-                    fences.append(fb)
-            # blocks that set the return value to true
-            trues = []
-            for rb, e in returned_exprs(ctx, b):
-                if e[0] == "const" and e[2] == "1":
-                    trues.append(rb)
-                elif e[0] != "const":
-                    trues.append(rb)  # non-constant result: treat as possibly true
-            ok = strong or (bool(trues) and all(any(b.dominates(f, tb) for f in fences) for tb in trues))
-            ctx.ob("R3.3", b, "acquire-before-reporting-last", ok, b.loc(bb),
-                   "rmw %s; acquire fences dominating the 'true' return: %s" % (o, [b.loc(f) for f in fences]))
-            # 'last' means old value == 1
-            cond_ok = False
-            for sb in range(b.n):
-                for tgt, labs in fl.edge_labels(sb).items():
-                    for lab in labs:
-                        if lab[0] == "bool" and lab[1][0] == "binop" and lab[1][1] in ("Ne", "Eq"):
-                            a, c = lab[1][2], lab[1][3]
-                            if a[0] == "call" and a[3] == bb and c[0] == "const" and c[2] == "1":
-                                is_last_edge = (lab[1][1] == "Eq") == (lab[2] is True)
-                                if is_last_edge and any(b.dominates(tgt, tb) for tb in trues if e):
-                                    cond_ok = True
-            ctx.ob("R3.3", b, "last-iff-old==1", cond_ok, b.loc(bb))
+                if fo in ("Acquire", "AcqRel", "SeqCst"):
+                    fence_blocks.append(fb)
+            bad_acq = []
+            bad_iff = []
+            npaths = 0
+            for kind, path, know in sensitive_paths(b, fl, 2):
+                if kind != "return" or bb not in path:
+                    continue
+                npaths += 1
+                pe = PathEval(b, path)
+                ret = pe.local_expr(0)
+                labels = path_bool_labels(b, pe, path)
+
+                def is_old_eq_1(e):
+                    """-> +1 if e is (old == 1), -1 if (old != 1), 0 otherwise; old = result of this RMW"""
+                    if e[0] == "binop" and e[1] in ("Eq", "Ne"):
+                        x, y = e[2], e[3]
+                        for p_, q_ in ((x, y), (y, x)):
+                            if p_[0] == "call" and p_[3] == bb and q_[0] == "const" and q_[2] == "1":
+                                return 1 if e[1] == "Eq" else -1
+                    return 0
+
+                # truth of `old == 1` on this path, from the branches taken
+                last = None
+                for e_, v_ in labels:
+                    s_ = is_old_eq_1(e_)
+                    if s_:
+                        last = v_ if s_ == 1 else (not v_)
+                # value returned on this path
+                if ret[0] == "const":
+                    val = ret[2] == "1"
+                else:
+                    val = None
+                    for e_, v_ in labels:
+                        if e_ == ret:
+                            val = v_
+                    s_ = is_old_eq_1(ret)
+                    if val is None and s_:
+                        val = last if last is not None else "is-last-expr"
+                        if s_ == -1 and isinstance(val, bool):
+                            val = not val
+                        if s_ == -1 and val == "is-last-expr":
+                            val = "not-last-expr"
+                may_be_true = val is True or val in (None, "is-last-expr")
+                if may_be_true and not strong:
+                    after = path[path.index(bb) + 1:]
+                    if not any(f_ in after for f_ in fence_blocks):
+                        bad_acq.append(path)
+                ok_iff = (val == "is-last-expr") or (isinstance(val, bool) and last is not None and val == last)
+                if not ok_iff:
+                    bad_iff.append((path, val, last))
+            ctx.ob("R3.3", b, "acquire-before-reporting-last", npaths > 0 and not bad_acq, b.loc(bb),
+                   "rmw %s; %d return paths; paths that may report 'last' without an Acquire fence after the RMW: %d" % (o, npaths, len(bad_acq)),
+                   path=bad_acq[0] if bad_acq else None)
+            ctx.ob("R3.3", b, "last-iff-old==1", npaths > 0 and not bad_iff, b.loc(bb),
+                   "value returned vs (old == 1) per path: %s" % [(v, l) for _, v, l in bad_iff[:3]])
     ctx.floor("R3.3", "rc-functions", len(inc) + len(dec), 2)
 
 
@@ -320,29 +353,25 @@ def r3_5(ctx, R, layout_fn):
                      "padded item size * (cap + 1)")
     ctor = alloc_fn(ctx)
     cf = ctx.flow(ctor)
-    # offset helper: crate fn (no params) whose result feeds a byte add in the constructor
-    helper = None
-    for bb, t, fn in ctor.calls():
-        if fn and re.search(r"core::ptr::mut_ptr::<impl \*mut u8>::add$", fn["def_str"]):
-            off = cf.operand_expr(t["args"][1])
-            if off[0] == "call" and off[1] in ctx.facts.bodies:
-                helper = ctx.facts.bodies[off[1]]
-    ctx.need(helper is not None, "OFFSET: the constructor must add a crate-computed byte offset to the allocation")
-    users = sorted(b.path for b, _ in R.callers_of(helper))
-    ctx.ob("R3.5", helper, "(a) offset-helper-users", len(users) == 3 and ctor.path in users, d_loc(helper), str(users))
-    # every user applies it as bytes on a u8 pointer with add (forward) or sub (reverse)
-    fwd = rev = 0
-    for b, ss in R.callers_of(helper):
+    # (a) every byte-offset step between header and item slice (u8-pointer add / sub with a non-parameter offset) uses the
+    # same offset computation: compared by expression shape, so it does not matter whether the computation lives in a
+    # helper or is written out at each site
+    from lib_flow import expr_shape
+    steps = []
+    for b in ctx.facts.fn_bodies():
         fl = ctx.flow(b)
         for bb, t, fn in b.calls():
-            if fn and re.search(r"core::ptr::mut_ptr::<impl \*mut u8>::(add|sub)$", fn["def_str"]):
+            if fn and not b.is_cleanup(bb) and re.search(r"core::ptr::mut_ptr::<impl \*mut u8>::(add|sub)$", fn["def_str"]):
                 off = fl.operand_expr(t["args"][1])
-                if off[0] == "call" and off[1] == helper.path:
-                    if fn["def_str"].endswith("add"):
-                        fwd += 1
-                    else:
-                        rev += 1
-    ctx.ob("R3.5", helper, "(a) offset applied as u8 add x2 / sub x1", fwd == 2 and rev == 1, d_loc(helper), "add %d sub %d" % (fwd, rev))
+                steps.append((b, bb, "add" if fn["def_str"].endswith("add") else "sub", expr_shape(off), off))
+    shapes = {s_[3] for s_ in steps}
+    fwd = sum(1 for s_ in steps if s_[2] == "add")
+    rev = sum(1 for s_ in steps if s_[2] == "sub")
+    uses_layout = all("Layout::new" in s_[3] or "size_of" in s_[3] or "::slice_offset" in s_[3] or re.search(r"\(\)$", s_[3]) for s_ in steps)
+    ctx.ob("R3.5", ctor, "(a) one offset computation, used forward and backward", len(shapes) == 1 and fwd >= 2 and rev >= 1 and uses_layout, d_loc(ctor),
+           "%d byte-offset steps (add %d, sub %d), %d distinct offset shapes: %s" % (len(steps), fwd, rev, len(shapes), [x[:90] for x in sorted(shapes)][:2]))
+    in_ctor = any(s_[0].path == ctor.path and s_[2] == "add" for s_ in steps)
+    ctx.ob("R3.5", ctor, "(a) the constructor places the items at that offset", in_ctor, d_loc(ctor))
     # (b) constructor writes
     item_ty = None
     writes = direct_sites(ctor, r"core::ptr::write$")
@@ -381,18 +410,17 @@ def r3_5(ctx, R, layout_fn):
         ok = stub_ptr is not None and a == strip_refs(stub_ptr) or (stub_ptr is not None and a[0] == "call" and a[2] == stub_ptr[2])
         ctx.ob("R3.5", ctor, "(b) stub handed to the queue is slice+cap", bool(ok), ctor.loc(bb), "%s vs %s" % (expr_str(a), expr_str(stub_ptr) if stub_ptr else None))
     # (c) reverse computation
-    for b, ss in R.callers_of(helper):
+    for b, bb, kind, shp, off in steps:
+        if kind != "sub":
+            continue
         fl = ctx.flow(b)
-        for bb, t, fn in b.calls():
-            if fn and re.search(r"core::ptr::mut_ptr::<impl \*mut u8>::sub$", fn["def_str"]):
-                base = strip_refs(fl.operand_expr(t["args"][0]))
-                ok = False
-                if base[0] == "call":
-                    inner = base
-                    if inner[0] == "call" and (inner[1] or "").endswith("::sub"):
-                        p, k = strip_refs(inner[2][0]), inner[2][1]
-                        ok = p[0] == "param" and k[0] == "proj" and k[2][-1] == ".index" and strip_refs(k[1]) == p
-                ctx.ob("R3.5", b, "(c) reverse = ptr.sub((*ptr).index) then bytes.sub(OFFSET)", ok, b.loc(bb), expr_str(base))
+        t = b.term(bb)
+        base = strip_refs(fl.operand_expr(t["args"][0]))
+        ok = False
+        if base[0] == "call" and (base[1] or "").endswith("::sub"):
+            p, k = strip_refs(base[2][0]), base[2][1]
+            ok = p[0] == "param" and k[0] == "proj" and k[2][-1] == ".index" and strip_refs(k[1]) == p
+        ctx.ob("R3.5", b, "(c) reverse = ptr.sub((*ptr).index) then bytes.sub(OFFSET)@%s" % _site_label(b, bb), ok, b.loc(bb), expr_str(base))
     # (d) layout
     lf = ctx.flow(layout_fn)
     okd = False
@@ -571,8 +599,20 @@ def r3_9(ctx, R):
             ok = False
             for lb, lt in locks:
                 g = lt["dest"]["l"]
-                drops = [db for db in range(b.n) if b.term(db)["k"] == "drop" and not b.is_cleanup(db) and b.term(db)["place"]["l"] == g and not b.term(db)["place"]["p"]]
-                if drops and not any(b.dominates(db, ebb) for db in drops):
+                # where the guard is released: its Drop terminator, or the block that moves it away (e.g. into mem::drop)
+                rel = [db for db in range(b.n) if b.term(db)["k"] == "drop" and not b.is_cleanup(db) and b.term(db)["place"]["l"] == g and not b.term(db)["place"]["p"]]
+                for (ub, ui, node) in fl.uses_of_local(g):
+                    if b.is_cleanup(ub):
+                        continue
+                    moved = False
+                    if ui == "term" and node["k"] == "call":
+                        moved = any(a_["k"] == "move" and a_["place"]["l"] == g and not a_["place"]["p"] for a_ in node["args"])
+                    elif ui != "term" and node["k"] == "assign" and node["rv"]["k"] == "use" and node["rv"]["op"]["k"] == "move" \
+                            and node["rv"]["op"]["place"]["l"] == g and not node["rv"]["op"]["place"]["p"]:
+                        moved = True
+                    if moved:
+                        rel.append(ub)
+                if rel and not any(b.dominates(db, ebb) and db != ebb for db in rel):
                     ok = True
             ctx.ob("R3.9", b, "enqueue-under-the-slot-lock@%s" % _site_label(b, ebb), ok, b.loc(ebb))
     ctx.floor("R3.9", "flag-field-borrows", n, 2)
